@@ -213,6 +213,48 @@ func (n *Node) PreExecKV(initiator string, prog string) *PreExecResult {
 	return r
 }
 
+// PreExecReq pre-executes one request of any kernel contract in a sandbox over the node's live state (the steps of
+// Chain.PreExec for one request). The result can be held and assembled into a transaction later (ContractTx): two
+// results computed on the same state stand for two clients that pre-executed before either submitted.
+func (n *Node) PreExecReq(initiator string, authRequire []string, req *protos.InvokeRequest) *PreExecResult {
+	r := &PreExecResult{}
+	sb, err := n.CM.NewStateSandbox(&contract.SandboxConfig{XMReader: n.S.CreateXMReader(), UTXOReader: n.S.CreateUtxoReader()})
+	if err != nil {
+		r.Err = err
+		return r
+	}
+	ctx, err := n.CM.NewContext(&contract.ContextConfig{State: sb, Initiator: initiator, AuthRequire: authRequire,
+		ResourceLimits: contract.MaxLimits, Module: req.ModuleName, ContractName: req.ContractName})
+	if err != nil {
+		r.Err = err
+		return r
+	}
+	resp, err := ctx.Invoke(req.MethodName, req.Args)
+	if err != nil {
+		ctx.Release()
+		r.Err = err
+		return r
+	}
+	used := ctx.ResourceUsed()
+	ctx.Release()
+	r.Status = resp.Status
+	r.Body = string(resp.Body)
+	if err := sb.Flush(); err != nil {
+		r.Err = err
+		return r
+	}
+	rw := sb.RWSet()
+	urw := sb.UTXORWSet()
+	rq := *req
+	rq.ResourceLimits = contract.ToPbLimits(used)
+	r.Requests = []*protos.InvokeRequest{&rq}
+	r.Inputs = xmodel.GetTxInputs(rw.RSet)
+	r.Outputs = xmodel.GetTxOutputs(rw.WSet)
+	r.UtxoIn = urw.Rset
+	r.UtxoOut = urw.WSet
+	return r
+}
+
 // ContractTx assembles and signs the transaction for a pre-execution result (no-fee chains: no token inputs
 // unless the contract transferred).
 func ContractTx(from *xvlib.Account, r *PreExecResult, desc string) (*pb.Transaction, error) {
